@@ -489,7 +489,7 @@ def pick_entities(R, ents, limit):
     focus = [x for x in cand if x not in must and (getattr(x, "focus", False)
                                                    or any(o.site in ("use_item", "attr_spec_alias") for o in x.occs))]
     R.shuffle(focus)
-    must += focus[:4]
+    must += focus[:3]
     cross = [x for x in cand if getattr(x, "cross", False) and x not in must and len(set(o.file for o in x.occs)) > 1]
     R.shuffle(cross)
     must += cross[:2]
@@ -549,7 +549,7 @@ def main(tier, replay=None):
         nproj = 60 if tier == "quick" else 150
         plan = [(seed(), i, family_of(seed(), i)) for i in range(nproj)]
         only_ent = None
-        limit = 4 if tier == "quick" else None
+        limit = 3 if tier == "quick" else None
         # history sessions: 6 generated + 2 corpus projects (thorough: 24 + 2) on a long-lived server
         hidx = [i for i in range(nproj) if family_of(seed(), i) is None]
         hist_plan = [(seed(), i) for i in hidx[:6 if tier == "quick" else 24]] + [("corpus", "sound_basics"),
@@ -1062,7 +1062,7 @@ def main(tier, replay=None):
         "overloaded functions with declaration+body, procedures, ports/generics with named association, components, "
         "entities/architectures/packages/configurations referenced across files, labels, record elements, overloaded enumeration "
         "literals, aliases, attributes, hidden and prefix-sharing names, mixed-case spellings, names inside comments and strings, "
-        "UTF-16 columns behind supplementary-plane characters in files opened by the client); quick: 60 projects x (4 entities round-robin over kinds + samples of the cross-file, alias / by-item-use and finding-site entities) "
+        "UTF-16 columns behind supplementary-plane characters in files opened by the client); quick: 60 projects x (3 entities round-robin over kinds + samples of the cross-file, alias / by-item-use and finding-site entities) "
         "(round-robin over kinds) x every occurrence kind as cursor (declaration, body, end identifier, one reference per file), thorough: 150 projects x every entity likewise; a case is non-trivial when the "
         "rename produces at least two edits; distinct by project, entity and edit set")
     res.coverage["explanation"] = (
